@@ -46,11 +46,13 @@ def apply_edits(root, edits):
         if n != want:
             return f"edit does not apply: {e['file']}: {n} occurrences of {e['old']!r} (want {want})"
         src = src.replace(e["old"], e["new"])
+        open(path, "w").write(src)
+    for e in edits:
+        path = os.path.join(root, e["file"])
         try:
-            compile(src, path, "exec")
+            compile(open(path).read(), path, "exec")
         except SyntaxError as ex:
             return f"mutant does not compile: {ex}"
-        open(path, "w").write(src)
     return None
 
 
